@@ -51,6 +51,15 @@ func observeRequest(kind, u, src, host string) (f reqFields, pv string) {
 			if h2 := filterutil.ExtractHostname(u); len(u) <= 4096 && h2 != r.Hostname {
 				panic("ExtractHostname and NewRequest disagree")
 			}
+			// what kind of resource is asked for does not enter any of these fields
+			for _, t := range []rules.RequestType{rules.TypeDocument, rules.TypeSubdocument, rules.TypeImage, rules.TypeOther} {
+				r2 := rules.NewRequest(u, src, t)
+				if r2.ThirdParty != r.ThirdParty || r2.Domain != r.Domain || r2.SourceDomain != r.SourceDomain || r2.Hostname != r.Hostname ||
+					r2.SourceHostname != r.SourceHostname || r2.URLLowerCase != r.URLLowerCase {
+					panic(fmt.Sprintf("the fields of a request of type %v differ from those of a script request: third-party %v/%v, source domain %q/%q",
+						t, r2.ThirdParty, r.ThirdParty, r2.SourceDomain, r.SourceDomain))
+				}
+			}
 		} else {
 			r := rules.NewRequestForHostname(host)
 			f = reqFields{URL: bytesToInts(r.URL), Lower: []int{}, Host: nzHost(hostFromString(r.Hostname)), Domain: nzHost(hostFromString(r.Domain)),
